@@ -135,6 +135,28 @@ def check_result_constructor(ctx: Ctx):
     rcls = prog.cls("panoptica_result:PanopticaResult")
     init = rcls.lookup("__init__")
     pn = [p.name for p in init.call_params]
+    # a handler may prescribe None (EdgeCaseResult.NONE): the aggregate is then exactly None
+    ech_none, _ = build_edge_case_handler(prog, metrics, none_values=True)
+    for tp, p, r in [(0, 0, 0), (0, 0, 5), (0, 3, 0), (0, 3, 5)]:
+        args = {"reference_arr": None, "prediction_arr": None, "num_pred_instances": p, "num_ref_instances": r, "tp": tp, "list_metrics": {m: [] for m in metrics[:3]}, "edge_case_handler": ech_none}
+        if "global_metrics" in pn:
+            args["global_metrics"] = []
+        o_n = Obj(rcls, {})
+
+        def make_n(prefix, args=args, o_n=o_n):
+            o_n.attrs.clear()
+            return ResultInterp(prog, init, dict(args), metrics=metrics, self_obj=o_n, prefix=prefix)
+
+        outs_n = enumerate_paths(make_n)
+        cn = f"{init.qual}:none-valued handler,class(tp={tp},n_pred={p},n_ref={r})"
+        if len(outs_n) != 1 or outs_n[0].decisions or outs_n[0].kind == "raise":
+            ctx.decide("R08.5", init, init.node, cn, "result constructor completes when the handler prescribes None", False if (len(outs_n) == 1 and outs_n[0].kind == "raise" and not outs_n[0].decisions) else None, {"outcome": outs_n[0].kind, "exc": outs_n[0].exc})
+            continue
+        lm_n = o_n.attrs.get("_list_metrics")
+        for m in metrics[:3]:
+            e = lm_n.get(m) if isinstance(lm_n, dict) else None
+            avg = e.attrs.get("AVG", "?") if isinstance(e, Obj) else "?"
+            ctx.decide("R08.5", init, init.node, cn + f":metric={m.attrs['_name_']}", "a prescribed None reaches the aggregate (AVG) as None, not as another value", avg is None, {"got": repr(avg)})
     need = ["reference_arr", "prediction_arr", "num_pred_instances", "num_ref_instances", "tp", "list_metrics", "edge_case_handler"]
     for x in need:
         if x not in pn:
